@@ -4,6 +4,7 @@ import (
 	"encoding/json"
 	"os"
 	"sort"
+	"strconv"
 	"sync/atomic"
 	"time"
 )
@@ -126,7 +127,32 @@ func journalCase(c *Case) {
 	}
 }
 
+// hardStop (unix seconds, from VERIF_HARD_STOP): the coordinator's deadline plus a grace period. The
+// deadline only stops handing out units; a unit in flight on a tree that makes every call slow
+// could run for a very long time. Past the hard stop the remaining cases of the unit are skipped and
+// the unit reports itself as not exhaustive (never as a violation).
+var hardStop int64
+
+func init() {
+	if v := os.Getenv("VERIF_HARD_STOP"); v != "" {
+		hardStop, _ = strconv.ParseInt(v, 10, 64)
+	}
+}
+
+func (w *Worker) pastHardStop() bool {
+	if hardStop != 0 && time.Now().Unix() > hardStop {
+		if w.Inexhaust == "" {
+			w.Inexhaust = "hard deadline reached: the remaining cases of this unit were skipped"
+		}
+		return true
+	}
+	return false
+}
+
 func (w *Worker) Do(c Case) Result {
+	if w.pastHardStop() {
+		return Result{}
+	}
 	w.Evaluations++
 	w.States++
 	w.Transitions++
@@ -190,6 +216,9 @@ func (w *Worker) Record(c Case, o Obs) {
 // would only repeat them (each may cost a full statement budget). Enumerators may stop; the unit
 // is then reported as not exhaustive — the violations found so far are reported as usual.
 func (w *Worker) Flooded() bool {
+	if w.pastHardStop() {
+		return true
+	}
 	if w.Counters["violating_cases"] > 3000 {
 		if w.Inexhaust == "" {
 			w.Inexhaust = "stopped after 3000 violating cases in this unit"
@@ -259,7 +288,7 @@ func (w *Worker) minimise(c Case, o Obs) (Case, string, string, int) {
 	cur, curObs, curExp := c, o.Observed, o.Expected
 	steps := 0
 	var trail []string
-	for steps < 200 {
+	for steps < 200 && !w.pastHardStop() {
 		progressed := false
 		for _, cand := range w.Check.Shrink(cur) {
 			ck := o.Clause + "\x00" + o.Class + "\x00" + cand.String()
